@@ -117,7 +117,11 @@ func (m *Model) runCheck(prop, tier string, keep bool, timeout int) int {
 		encs = append(encs, e)
 		var sel []*Obl
 		for _, o := range e.obls {
-			if o.Smoke || hasStr(o.Props, prop) {
+			// the proofs of this property's clauses assume the function's run-time safety obligations
+			// (each is assumed once stated), so those are checked along with them for every function
+			// whose contract header names the property
+			safetyOfOwn := hasStr(ct.Props, prop) && isSafetyKind(o.Kind)
+			if o.Smoke || hasStr(o.Props, prop) || safetyOfOwn {
 				sel = append(sel, o)
 			}
 		}
@@ -286,6 +290,14 @@ func (m *Model) runCheck(prop, tier string, keep bool, timeout int) int {
 		return 1
 	}
 	return 0
+}
+
+func isSafetyKind(k string) bool {
+	switch k {
+	case "nil", "idx", "slice", "div", "assert", "panic", "mapnil", "makeneg", "boxnil":
+		return true
+	}
+	return false
 }
 
 func prefixAll(p string, l []string) []string {
